@@ -41,6 +41,8 @@ def mk(spec):
         return TOKENS[spec[1]]
     if k == 'bigfloat':                    # floats that differ by one unit at a large magnitude (epoch seconds), or by 1e-13 near 0
         return 1.7e9 + spec[1] if spec[2] == 'big' else 1e-13 * spec[1]
+    if k == 'bytes':                       # b'\x00\x01' is not (0, 1)
+        return bytes([spec[1], 1 - spec[1]])
     if k == 'long':                        # 40-column records that differ in one column only, by values with equal hashes
         return tuple([0] * 20 + [-1 if spec[1] == 0 else -2] + ['x'] * 19)
     if k == 'np':                          # numpy scalars: == / != on them return numpy.bool_, not the bool singletons
@@ -64,6 +66,7 @@ SPEC = st.one_of(
     st.tuples(st.just('nested'), st.integers(0, 1)),
     st.tuples(st.just('np'), st.integers(0, 2), st.sampled_from(['i', 'f'])),
     st.tuples(st.just('long'), st.integers(0, 1)),
+    st.tuples(st.just('bytes'), st.integers(0, 1)),
     st.tuples(st.just('bigfloat'), st.integers(0, 2), st.sampled_from(['big', 'tiny'])),
 ).map(list)
 
